@@ -2,7 +2,8 @@
 Fault enumeration: target file x fault kind x phase x mode x path; each scenario = (good run) -> [edit] -> faulty run ->
 [revert] -> obstacle removed -> non-forced recovery run(s); the recovered output directory must equal a fresh forced
 generation of the then-current sources. Faults are injected into the real processes with strace (openat EACCES,
-write ENOSPC, SIGKILL at open) or with filesystem obstacles (directory in place of the file, parent is a file)."""
+write ENOSPC, SIGKILL at open), with filesystem obstacles (directory in place of the file, parent is a file) or with a file-size
+limit on the process (writes cut short)."""
 import json
 import os
 import random
@@ -13,7 +14,7 @@ from ..common import Verdict
 from . import c08
 
 TARGETS = ["types.ts", "commands.ts", "events.ts", "index.ts", ".typecache", "dependency-graph.txt", "dependency-graph.dot", "<output-dir>"]
-KINDS = ["open-EACCES", "write-ENOSPC", "open-SIGKILL", "EISDIR", "ENOTDIR"]
+KINDS = ["open-EACCES", "write-ENOSPC", "open-SIGKILL", "EISDIR", "ENOTDIR", "fsize-limit-1KiB", "fsize-limit-2KiB"]
 PHASES = ["first-run", "after-edit", "edit-then-revert"]
 
 
@@ -23,6 +24,8 @@ def scenario(a):
         return {"skip": "ENOTDIR only applies to the output directory"}
     if target == "<output-dir>" and kind not in ("ENOTDIR", "open-EACCES"):
         return {"skip": "n/a"}
+    if kind.startswith("fsize-limit") and target != "types.ts":
+        return {"skip": "the file-size limit applies to the whole process; run once per scenario"}
     if fsmon.STRACE is None and kind in ("open-EACCES", "write-ENOSPC", "open-SIGKILL"):
         return {"skip": "strace unavailable"}
     s = dict(c08.BASE)
@@ -77,6 +80,12 @@ def scenario(a):
             rf = common.run(argv(), cwd=root, hash_seed=seed % 97 + 1)
             info["injected"] = True
             obstacle = ("notdir", blocker)
+        elif kind.startswith("fsize-limit"):
+            # RLIMIT_FSIZE with SIGXFSZ ignored: a write that crosses the limit is cut short, the next one fails with EFBIG
+            blocks = 1 if kind.endswith("1KiB") else 2
+            rf = common.run(["bash", "-c", 'trap "" XFSZ; ulimit -f %d; exec "$@"' % blocks, "bash"] + argv(), cwd=root, hash_seed=seed % 97 + 1)
+            sizes = {f: os.path.getsize(os.path.join(out, f)) for f in os.listdir(out)} if os.path.isdir(out) else {}
+            info["injected"] = rf.rc != 0 or any(sz == blocks * 1024 for sz in sizes.values())
         else:
             inj = {"open-EACCES": "openat:error=EACCES", "write-ENOSPC": "write:error=ENOSPC", "open-SIGKILL": "openat:signal=SIGKILL"}[kind]
             if target == "<output-dir>":
